@@ -1667,7 +1667,7 @@ class _rrulestr(object):
 
         TZID_NAMES = dict(map(
             lambda x: (x.upper(), x),
-            re.findall('TZID=(?P<name>[^:]+):', s)
+            re.findall('TZID=(?P<name>[^:;]+)[:;]', s)
         ))
         s = s.upper()
         if not s.strip():
